@@ -30,7 +30,7 @@ def main():
         "setup_cmd": "./check setup",
         "hooks": {
             "guard": "verif (Go build tag)",
-            "enable": "harness test binaries are built with `go1.26.8 test -tags verif -c` from modules whose go.mod replaces every module of /repo by its directory. Not a change to /repo: at build time tools/lockinst.py writes copies of the sources of exporterhelper/internal/queuebatch and processor/batchprocessor with a yield call inserted before every mutex acquisition into a temporary directory and passes them with `-overlay` (for the batch processor the overlay also adds a tag-guarded hook file to the package; harness files referring to it are behind the `lockinst` tag); the directory is removed after the build",
+            "enable": "harness test binaries are built with `go1.26.8 test -tags verif -c` from modules whose go.mod replaces every module of /repo by its directory. Not a change to /repo: at build time tools/lockinst.py writes copies of the sources of exporterhelper/internal/queuebatch and processor/batchprocessor with a yield call inserted before every mutex acquisition into a temporary directory and passes them with `-overlay` (for the batch processor the overlay also adds a tag-guarded hook file to the package; harness files referring to it are behind the `lockinst` tag; in the same way `verifBeforeGC()` is inserted before the memory limiter's call of its GC function and a hook file is added to internal/memorylimiter, so that a simulated collection can take virtual time); the directory is removed after the build",
             "baseline_off_cmd": BASELINE_CMD,
             "source_commits": HOOK_COMMITS,
             "add_only": True,
